@@ -65,7 +65,9 @@ inductive Disp
   of the output; determinism of the external tool is trusted. -/
   | externalFormatter
   /-- A genuine order-sensitive iteration over a hash-ordered container: NOT accounted for by the
-  model; listed in known_findings.json (the check reproduces a text difference across hash seeds). -/
+  model; listed in known_findings.json (the check reproduces a text difference across hash seeds).
+  No audited entry carries it at present (`FAVerif.Props.C09.no_listed_findings`); it was the disposition of
+  `Context.dtype_index.find_dtype_index` until /repo commit 05234cd. -/
   | listedFinding
   deriving DecidableEq, Repr
 
